@@ -45,6 +45,11 @@ def frontend():
     goext("frontend", "Frontend.lean")
 
 
+def c11():
+    """C11: schema, copy table, structural/semantic branch tables, indexed-write/append facts (goext mode c11)."""
+    goext("c11", "C11.lean")
+
+
 def witness(script, outname, build_first):
     """Run lean/Witness/<script>.lean (compiled evaluation, untrusted) and store its stdout as a generated file."""
     _rm(outname)
